@@ -108,7 +108,7 @@ Case(p, hs) ==
         touch |-> Cardinality({i \in DOMAIN hs : \E k \in DOMAIN hs[i] : RingPos(hs[i][k], ring) = "B"}),
         \* Triangle on the first three shell vertices and bounding Rect of the shell (C05: Rect and
         \* Triangle areas equal those of their polygon form; collection areas are sums)
-        tri2 |-> Abs(Cross(p[1], p[2], p[3])),
+        tri2 |-> Abs(Cross(p[1], p[2], p[3])), tri_sign |-> Sign(Cross(p[1], p[2], p[3])),
         bbox |-> <<SetMin({p[i][1] : i \in DOMAIN p}), SetMin({p[i][2] : i \in DOMAIN p}),
                    SetMax({p[i][1] : i \in DOMAIN p}), SetMax({p[i][2] : i \in DOMAIN p})>>,
         rect2 |-> 2 * (SetMax({p[i][1] : i \in DOMAIN p}) - SetMin({p[i][1] : i \in DOMAIN p}))
